@@ -164,7 +164,7 @@ class ObjMixin:
             r = hk(self, owner, name)
             if r is not MISSING:
                 return r
-        if v is not None:
+        if v is not None or owner is not None:
             return self.bind_class_attr(obj, v, obj.cls)
         hook = self.hooks.get('obj_getattr')
         if hook is not None:
@@ -218,7 +218,7 @@ class ObjMixin:
             if r is not MISSING:
                 return r
         v, owner = cls.lookup(name)
-        if v is not None:
+        if v is not None or owner is not None:
             if isinstance(v, ClassMethodVal):
                 return BoundMethod(cls, v.func)
             if isinstance(v, StaticMethodVal):
